@@ -891,6 +891,59 @@ func rulePanic(c *Ctx) {
 	}
 
 	// side conditions of tabled panics
+	// (0) the compiler's MustCompile of a regex literal is tabled because the parser compiled the same text
+	// first: in every function of the parser that scans a regex literal (calls the lexer's ScanRegex), a call of
+	// regexp.Compile on AddRegexFlags(<the text returned>) dominates every normal return
+	{
+		n := 0
+		for _, fn := range c.srcFuncs("parser") {
+			scans := false
+			allInstrs(fn, func(in ssa.Instruction) {
+				if call, ok := in.(ssa.CallInstruction); ok {
+					if fo := calleeObj(call); fo != nil && fo.Name() == "ScanRegex" {
+						scans = true
+					}
+				}
+			})
+			if !scans {
+				continue
+			}
+			n++
+			var compileBlk *ssa.BasicBlock
+			var compiled ssa.Value
+			allInstrs(fn, func(in ssa.Instruction) {
+				call, ok := in.(*ssa.Call)
+				if !ok {
+					return
+				}
+				if fo := calleeObj(call); fo != nil && funcFullName(fo) == "regexp.Compile" && len(call.Call.Args) == 1 {
+					if inner, ok := call.Call.Args[0].(*ssa.Call); ok {
+						if io := calleeObj(inner); io != nil && io.Name() == "AddRegexFlags" && len(inner.Call.Args) == 1 {
+							compileBlk, compiled = in.Block(), inner.Call.Args[0]
+						}
+					}
+				}
+			})
+			good := compileBlk != nil
+			for _, b := range fn.Blocks {
+				if len(b.Instrs) == 0 {
+					continue
+				}
+				ret, ok := b.Instrs[len(b.Instrs)-1].(*ssa.Return)
+				if !ok {
+					continue
+				}
+				if compileBlk == nil || !compileBlk.Dominates(b) {
+					good = false
+				}
+				if len(ret.Results) == 1 && compiled != nil && ret.Results[0] != compiled {
+					good = false
+				}
+			}
+			c.check(good, "must-side:regexIndex:parser-validates:"+fn.Name(), fn.Pos(), "every regex literal the parser hands on was compiled (with the compiler's flags) before, on every path", fnKey(fn)+" can return a regex literal's text without having compiled it with regexp.Compile(AddRegexFlags(text)): the compiler's regexp.MustCompile of the same text then panics, and that panic is not a parse error (it escapes ParseProgram)")
+		}
+		c.atLeast("parser functions that scan a regex literal", n, 1)
+	}
 	// (1) nextRegex reached only under DIV / DIV_ASSIGN
 	pp := c.pkg("parser")
 	nNR := 0
